@@ -53,11 +53,27 @@ def gen_poly(rng, max_rows=4, max_cols=4, allow_int16=True, small=False, narrow=
         j = rng.randrange(n)
         for r_ in rows:
             r_[1 + j] = 0                                # zero column
+    if have16 and rng.random() < 0.5:
+        # a row that pins a column exactly next to an edge of its (default integer) range
+        j = next(k for k, b_ in enumerate(bounds) if b_ in INT16)
+        lo, hi = bounds[j]
+        row = [0] * (n + 1)
+        if rng.random() < 0.5:
+            row[1 + j] = -1
+            row[0] = -(lo + rng.choice([0, 1, 1, 2]))     # x <= lo + d
+        else:
+            row[1 + j] = 1
+            row[0] = hi - rng.choice([0, 1, 1, 2])        # x >= hi - d
+        rows[rng.randrange(len(rows))] = row
     ids = rng.sample(["x", "y", "z", "w", "u", "v", "a b", "", "ä", "q,r"], n)
     idx = ["r%d" % i for i in range(m)] if rng.random() < 0.7 else None
     if idx and m >= 2 and rng.random() < 0.2:
         idx[rng.randrange(1, m)] = idx[0]            # two rows that stem from the same proposition carry the same index id
     case = {"M": rows, "ids": ids, "bounds": [list(b) for b in bounds], "index": idx}
+    if rng.random() < 0.1:
+        case["numpy_bounds"] = True        # the bounds of every variable are narrow numpy integers (e.g. columns of an int8/int16 table)
+    if rng.random() < 0.15:
+        case["config"] = [rng.choice([-1, -1, -2]) for _ in range(n)]      # the receiver is a ge_polyhedron_config (subclass)
     if rng.random() < 0.2:
         case["first_variable"] = rng.choice([["0", 0, 1], ["0", 0, 1], ["b", -5, 5]])     # column 0 need not carry the (1,1) support variable
     if narrow:
@@ -69,15 +85,24 @@ def gen_poly(rng, max_rows=4, max_cols=4, allow_int16=True, small=False, narrow=
 
 
 def build_poly(case, cls=None):
-    cls = cls or pnd.ge_polyhedron
     fv = case.get("first_variable")
     first = puan.variable(fv[0], bounds=(fv[1], fv[2])) if fv else puan.variable.support_vector_variable()
-    variables = [first] + [puan.variable(i, bounds=tuple(b)) for i, b in zip(case["ids"], case["bounds"])]
+
+    def mk(i, b):
+        if case.get("numpy_bounds"):
+            t = numpy.int8 if -128 <= b[0] and b[1] <= 127 else numpy.int16
+            return puan.variable(i, bounds=(t(b[0]), t(b[1])))
+        return puan.variable(i, bounds=tuple(b))
+    variables = [first] + [mk(i, b) for i, b in zip(case["ids"], case["bounds"])]
     kw = {}
+    if cls is None and case.get("config"):
+        kw["default_prio_vector"] = numpy.array(case["config"])
+        cls = pnd.ge_polyhedron_config
     if case.get("index"):
         kw["index"] = [puan.variable(i) for i in case["index"]]
+    cls = cls or pnd.ge_polyhedron
     P = cls(numpy.array(case["M"], dtype=numpy.int64), variables=variables, **kw)
-    if case.get("dtype"):
+    if case.get("dtype") and cls is pnd.ge_polyhedron:
         info = numpy.iinfo(getattr(numpy, case["dtype"]))
         if all(info.min <= v <= info.max for r_ in case["M"] for v in r_):      # only when every entry fits (no wrap-around made by the harness)
             P = P.astype(getattr(numpy, case["dtype"]))
